@@ -45,6 +45,17 @@ class NI(Bin):
 class R:
     def __repr__(s): return 'R'
 ''' + ''.join("    def __r%s__(s, o): return ('r%s', o)\n" % (n, n) for n in OPN) + '''
+class FalsySelf:
+    # in-place methods work and return self, but the object is falsy
+    def __init__(s, v=0): s.v = v
+    def __repr__(s): return 'FalsySelf(%r)' % (s.v,)
+    def __bool__(s): return False
+''' + ''.join("    def __i%s__(s, o):\n        s.v = ('%s', s.v, o); return s\n" % (n, n) for n in OPN) + ''.join("    def __%s__(s, o): return ('binary-%s-must-not-run', s.v, o)\n" % (n, n) for n in OPN) + '''
+class FalsyNew:
+    def __init__(s, v=0): s.v = v
+    def __repr__(s): return 'FalsyNew(%r)' % (s.v,)
+    def __len__(s): return 0
+''' + ''.join("    def __i%s__(s, o): return FalsyNew(('%s', s.v, o))\n" % (n, n) for n in OPN) + ''.join("    def __%s__(s, o): return ('binary-%s-must-not-run', s.v, o)\n" % (n, n) for n in OPN) + '''
 class H: pass
 class Log:
     def __init__(s, name, data=None):
@@ -62,7 +73,11 @@ class Log:
 OPERANDS = {'int': ('7', '2'), 'float': ('7.5', '2.0'), 'str': ("'ab'", "'c'"), 'str*int': ("'ab'", '2'),
             'list': ('[1,2]', '[3]'), 'list*int': ('[1]', '2'), 'tuple': ('(1,)', '(2,)'), 'set': ('{1,2}', '{2,3}'),
             'dict': ("{1:2}", "{3:4}"), 'Self': ('Self(1)', '5'), 'New': ('New(1)', '5'), 'Bin': ('Bin(1)', '5'),
-            'NI': ('NI(1)', '5'), 'intR': ('1', 'R()'), 'bool': ('True', 'True'), 'str%': ("'%s-%s'", "(1,2)")}
+            'NI': ('NI(1)', '5'), 'intR': ('1', 'R()'), 'bool': ('True', 'True'), 'str%': ("'%s-%s'", "(1,2)"),
+            # in-place results that are falsy
+            'list-emptied': ('[1, 2]', '0'), 'list-stays-empty': ('[]', '[]'), 'set-emptied': ('{1, 2}', '{1, 2}'),
+            'dict-stays-empty': ('{}', '{}'), 'FalsySelf': ('FalsySelf(1)', '5'), 'FalsyNew': ('FalsyNew(1)', '5'),
+            'bytearray-emptied': ("bytearray(b'ab')", '0')}
 AUG_PLACES = ['global', 'local', 'class', 'nonlocal', 'globaldecl', 'method-attr']
 
 
